@@ -32,7 +32,7 @@ def harness_source_names():
         mod = fn.split('.')[0]
         if fn.endswith('.in'):
             mod = fn.split('_instances')[0]
-        for m in re.finditer(r'^\s{4}(\w+)\s*:', txt, re.M) if fn.endswith('.in') else []:
+        for m in re.finditer(r'^\s{4}(?:@plain\s+)?(\w+)\s*:', txt, re.M) if fn.endswith('.in') else []:
             names[m.group(1)] = mod
         for m in re.finditer(r'kani::proof\)\]\s*(?:#\[[^\]]*\]\s*)*pub fn (\w+)\(', txt):
             names[m.group(1)] = mod
